@@ -136,7 +136,7 @@ def unit(u):
 
 def run(tier, seed):
     t0 = time.time()
-    acc, nspecs = SC.run_units(unit, tier, seed, ("F1", "F2", "F3", "F4", "F5", "F6"), chunk=20, filt=lambda s: eligible(s, tier))
+    acc, nspecs = SC.run_units(unit, tier, seed, U.ALL, chunk=20, filt=lambda s: eligible(s, tier))
     cov = {
         "states": acc.c["states"],
         "transitions": acc.c["transitions"],
